@@ -466,6 +466,7 @@ void check(const RMeta &m, mc::Ctx &ctx) {
     ctx.count("encode_ok:" + cn);
     ctx.count_max("max_stream_bytes", o.stream_size);
     ctx.state(o.stream_hash);
+    if (m.present && (inf.nodes > 1 + int(m.att.size()) || !m.att.empty())) ctx.nontrivial(mc::hash_combine(th, ci));
     if (!o.decode_ok) {
       ctx.fail("meta|" + ks + "|decode-failed", show(m) + " :: " + cn + ": encode ok, decode: " + o.decode_msg);
       all_ok = false;
@@ -483,7 +484,6 @@ void check(const RMeta &m, mc::Ctx &ctx) {
     if (o.tree_diff.empty() && o.geom_diff.empty()) {
       ctx.count("roundtrip_equal:" + cn);
       ctx.count("roundtrip_equal|" + ks);
-      if (m.present && (inf.nodes > 1 + int(m.att.size()) || !m.att.empty())) ctx.nontrivial(mc::hash_combine(th, ci));
     }
   }
   // stand-alone Metadata (not GeometryMetadata) codec on the root tree
@@ -553,13 +553,17 @@ RNode plain_leaf(int v) {
 }
 // Focus tree: a chain root -"a"-> ... -"a"-> node at |level|; intermediate
 // nodes hold {"a"="v"}; the focus node holds entry set |e| and the children of
-// child set |s| (leaves {"a"=int32}).
+// child set |s| (leaves {"a"=int32} and {"b"=double}).
 RNode focus_tree(int level, uint64_t e, uint64_t s, const std::vector<int> &vals) {
   RNode f;
   set_entries(&f, e, vals);
   std::vector<int> cn;
   child_names(s, &cn);
-  for (int c : cn) f.children[name_of(c)] = plain_leaf(V_INT);
+  for (size_t k = 0; k < cn.size(); ++k) {  // the two children differ in content
+    RNode leaf;
+    if (k == 0) leaf.entries["a"] = V_INT; else leaf.entries["b"] = V_DOUBLE;
+    f.children[name_of(cn[k])] = leaf;
+  }
   for (int l = level; l > 0; --l) {
     RNode p = plain_leaf(V_STR);
     p.children["a"] = std::move(f);
@@ -673,7 +677,7 @@ int main(int argc, char **argv) {
       "one runner index = one metadata tree; it is executed on 7 carriers (stand-alone GeometryMetadata codec, 2-triangle mesh sequential / "
       "Edgebreaker via Encoder, 4-point cloud sequential / kd-tree int / kd-tree 8-bit float via ExpertEncoder, stand-alone Metadata codec on the "
       "root), each counted as one evaluation; states = distinct encoded byte streams; non-trivial = distinct (tree, carrier) pairs that "
-      "round-tripped equal and whose tree has at least one sub-metadata or attribute-metadata block (so nesting / keys are observable)";
+      "were encoded ok (so the decoder result is compared) and whose tree has at least one sub-metadata or attribute-metadata block (so nesting / keys are observable)";
   R.explanation =
       "stateless exhaustive enumeration of explicit tree families on the real code; reference tree = plain structs (name->value class, "
       "name->child); decoded Metadata walked through entries()/sub_metadatas()/attribute_metadatas() and compared by names, byte-exact values, "
@@ -765,8 +769,10 @@ int main(int argc, char **argv) {
   R.require("trees:plain", 1000);
   R.require("trees:name>255", 100);
   R.require("trees:with-64KiB-value", 100);
-  for (int c = 0; c < NUM_CARRIERS; ++c) R.require(std::string("roundtrip_equal:") + kCarrierName[c], 1000);
-  R.require("roundtrip_equal:standalone-plain-metadata", 1000);
+  // guards are on the oracle's precondition (encode ok => the decoder result is compared), so that a broken draco yields
+  // violations, not guard errors
+  for (int c = 0; c < NUM_CARRIERS; ++c) R.require(std::string("encode_ok:") + kCarrierName[c], 1000);
+  R.require("encode_ok:standalone-plain-metadata", 1000);
   R.require("trees:depth2", 100);
   if (fast) R.require("trees:empty-value", 100);
   return R.main();
